@@ -263,7 +263,7 @@ def recipes_for(ctx):
 
 
 def run(ctx, explain=False):
-    lv = ctx.pick(2, 3)
+    lv = ctx.pick(3, 4)
     ctx.model_check("mc/MC_Invariants.tla", MC_CFG % (lv, "FALSE"),
                     name="MC_Invariants(L<=%d vectors, L<=26 triples)" % lv, timeout=1200)
     if explain:
